@@ -379,6 +379,11 @@ func (p *_Loader) Import(pkgpath string) (*types.Package, error) {
 		Scopes:     make(map[ast.Node]*types.Scope),
 	}
 
+	if len(pkg.Files) == 0 {
+		// nothing to type check (types.Config.Check asserts len(files) > 0)
+		return nil, fmt.Errorf("package %s: no Wa/Wz source files", pkgpath)
+	}
+
 	conf := types.Config{
 		Importer: p,
 		Sizes:    p.getSizes(),
